@@ -212,7 +212,7 @@ def r093(chk, w, b, it, outs, rn):
                 roles["fill-range"] = C.show_arg(nz, e[3][1])
             if e[0] == "call" and (e[2] or "").endswith("from_elem"):
                 size.add(C.show_arg(nz, e[3][1]))
-    wl = re.compile(r"<core::str::iter::Chars as core::iter::traits::iterator::Iterator>::count\(str::chars\(&[^()]*\)\)")
+    wl = re.compile(r"<core::str::iter::Chars as core::iter::traits::iterator::Iterator>::count\(str::chars\(&?[^()]*\)\)")
     fr = wl.sub("LEN", roles.get("fill-range") or "")
     chk.ob("R09.3", "record:first<-left(.0)", roles.get("[first]") == "0", "first weight of a dictionary word comes from tuple field .%s; expected .0 (left)" % roles.get("[first]"), site=C.site(cl))
     chk.ob("R09.3", "record:inside<-.1", roles.get("fill") == "1" and fr == "Range{start: 1, end: LEN}", "inside weights come from .%s over %s; expected .1 over 1..word_len" % (roles.get("fill"), fr), site=C.site(cl))
@@ -226,7 +226,10 @@ def r093(chk, w, b, it, outs, rn):
         for e in x.trace:
             if e[0] == "call" and e[2] and "Index<" in e[2] and "IndexMut" not in e[2] and len(e[3]) > 1 and e[3][1][0] in ("expr", "sym"):
                 idxv = wl.sub("LEN", C.show_arg(nz, e[3][1]))
-    chk.ob("R09.3", "record:bucket", idxv is not None and re.match(r"-1 \+ min\(LEN, alloc::vec::Vec::len\(&.*\)\)$", idxv) is not None,
+    if idxv is None and len(ci.index_vals) == 1 and couts:
+        # the bucket table is a slice: the index is a built-in index projection, not an Index::index call
+        idxv = wl.sub("LEN", C.show_arg(forms.Normalizer(ci, couts[0]), ci.index_vals[0]))
+    chk.ob("R09.3", "record:bucket", idxv is not None and re.match(r"-1 \+ min\(LEN, (alloc::vec::Vec::len|\[T\]::len)\(&.*\)\)$", idxv) is not None,
            "bucket index for a dictionary word is `%s`; expected min(word_len, number of buckets) - 1" % idxv, site=C.site(cl), sample={"bucket": idxv})
 
 
@@ -250,7 +253,7 @@ def r091_new(chk, w):
         d = dict(agg[2])
         for i, r in enumerate(roles):
             n += 1
-            chk.ob("R09.1", "new:field:%s" % r, d.get(r) == absint.SYM("arg%d" % (i + 1)) and (len(pnames) <= i or pnames[i] == r),
+            chk.ob("R09.1", "new:field:%s" % r, d.get(r) == absint.SYM("arg%d" % (i + 1)),
                    "Trainer::new stores %s into field %s (parameter order: %s)" % (d.get(r), r, pnames[:4]), site=C.site(b))
         tt = [e for e in o.trace if e[0] == "call" and e[2] == "vaporetto::tag_trainer::TagTrainer::new"]
         ok = len(tt) == 1 and tt[0][3][:4] == tuple(absint.SYM("arg%d" % (i + 1)) for i in range(4))
